@@ -412,11 +412,15 @@ vars == <<c, expect, reasons, alts, layout>>
 
 \* Two steps, only so that TLC's workers share the enumeration: an initial "seed" state per
 \* (kind, version, variant, frame options); its successors are the cases.  Seeds are not cases.
+\* versions of the session-layer sequences ("SESSION", below)
+SessVersions == IF Small THEN {4, 5} ELSE {4, 5, DSE1, DSE2}          \* custom payloads: v4+
 Init == \E k \in Families : \E pv \in Versions, var \in Vars, x \in FrameIdx(k) :
+            /\ (k = "SESSION" => pv \in SessVersions /\ var = (CHOOSE v \in Vars : TRUE) /\ x = <<FALSE, 0, FALSE, FALSE>>)
             /\ c = [kind |-> k, pv |-> pv, var |-> var, fx |-> x]
             /\ expect = "seed" /\ reasons = {} /\ alts = {} /\ layout = <<>>
 
-Next == /\ expect = "seed"
+Single ==
+        /\ expect = "seed" /\ c.kind # "SESSION"
         /\ \E o \in Cases(c.kind, c.pv, c.var) :
              LET k  == c.kind   pv == c.pv
                  fo == FrameOpt(pv, c.var, c.fx)
@@ -430,6 +434,47 @@ Next == /\ expect = "seed"
                         THEN UNION {Frames(k, pv, fo, AllParts(k, pv, fo, ov)) : ov \in SkipVariants(k, o)}
                         ELSE {}
              /\ layout' = IF e = "frame" THEN Layout(pv, fo, parts) ELSE <<>>
+\* ---- SEQUENCES through the session layer ("SESSION" in Families)
+\* One statement object (SimpleStatement / BoundStatement of one PreparedStatement / BatchStatement) that has a custom
+\* payload of its OWN is executed several times, each time with a per-call payload (Session.execute(...,
+\* custom_payload=)).  Session._create_response_future builds the message and merges
+\*     message.update_custom_payload(statement.custom_payload); message.update_custom_payload(per-call payload)
+\* (cassandra/cluster.py, cassandra/protocol.py _MessageType.update_custom_payload).  Every frame must carry exactly
+\* the statement's own entries overridden / extended by THIS call's entries - whatever earlier calls passed.
+\* The statement's own payload is a constant of the behaviour: no step changes it.
+OwnPayloads  == << <<>>, << <<<<107>>, V(<<1, 2>>)>> >>, << <<<<97>>, V(<<>>)>>, <<<<98>>, V(<<0, 255>>)>> >> >>   \* none, {k}, {a, b}
+CallPayloads == << <<>>, << <<<<120>>, V(<<7>>)>> >>, << <<<<97>>, V(<<9, 9>>)>>, <<<<121>>, Null>> >> >>          \* none, {x}, {a (clashes), y: null}
+MergeP(own, call) == SelectSeq(own, LAMBDA e : \A j \in 1..Len(call) : call[j][1] # e[1]) \o call      \* dict.update
+NCalls == 3
+\* what the session layer puts into the message for a statement with consistency ONE and fetch size 5000 and nothing else
+SessKind(stmt) == CASE stmt = "simple" -> "QUERY" [] stmt = "bound" -> "EXECUTE" [] stmt = "batch" -> "BATCH"
+SessO(stmt, pv) ==
+    LET pr == Params(1, None, FALSE, 0, 0, 0, 0, 0, 0) IN
+    CASE stmt = "simple" -> [query |-> A_query[1]] @@ [pr EXCEPT !.page = Some(5000)]
+      [] stmt = "bound"  -> [id |-> A_id[1], rmid |-> IF HasResultMetadataId(pv) THEN Some(A_rmid[1]) ELSE None]
+                            @@ [pr EXCEPT !.page = Some(5000), !.values = Some(<<>>)]
+      [] stmt = "batch"  -> [btype |-> 0, queries |-> << BQ(FALSE, A_query[1], <<>>) >>, cl |-> 1,
+                             serial |-> None, ts |-> None, ks |-> None]
+SessStep(stmt, own, calls, pos) ==
+    LET k  == SessKind(stmt)   pv == c.pv
+        pl == MergeP(OwnPayloads[own + 1], CallPayloads[calls[pos] + 1])
+        fo == [tracing |-> FALSE, payload |-> IF pl = <<>> THEN None ELSE Some(pl), compress |-> FALSE, beta |-> FALSE, stream |-> 1]
+        o  == SessO(stmt, pv)
+        parts == AllParts(k, pv, fo, o) IN
+    /\ c' = [kind |-> k, pv |-> pv, var |-> c.var, fo |-> fo, o |-> o,
+             seq |-> [stmt |-> stmt, own |-> own, calls |-> calls, pos |-> pos,
+                      ownp |-> OwnPayloads[own + 1], callp |-> CallPayloads[calls[pos] + 1]]]
+    /\ expect' = "frame" /\ reasons' = {}
+    /\ alts' = Frames(k, pv, fo, parts)
+    /\ layout' = Layout(pv, fo, parts)
+InSequence == expect # "seed" /\ "seq" \in DOMAIN c
+Session ==
+    \/ /\ expect = "seed" /\ c.kind = "SESSION"
+       /\ \E stmt \in {"simple", "bound", "batch"}, own \in 0..2, calls \in [1..NCalls -> 0..2] : SessStep(stmt, own, calls, 1)
+    \/ /\ InSequence /\ c.seq.pos < NCalls
+       /\ SessStep(c.seq.stmt, c.seq.own, c.seq.calls, c.seq.pos + 1)
+
+Next == Single \/ Session
 Spec == Init /\ [][Next]_vars
 IsCase == expect # "seed"
 
@@ -479,5 +524,9 @@ OpenIsOutOfScope == expect = "open" => reasons # {} /\ \A w \in reasons : ~w[2]
 Witness_Reject       == ~(expect = "reject")
 Witness_Open         == ~(expect = "open")
 Witness_Alternatives == ~(Cardinality(alts) > 1)
+\* in a sequence the payload of a frame is a function of the statement's own payload and of this call's only
+SequencePayloadOK == InSequence =>
+    c.fo.payload = (LET pl == MergeP(c.seq.ownp, c.seq.callp) IN IF pl = <<>> THEN None ELSE Some(pl))
+Witness_Sequence     == ~(InSequence /\ c.seq.pos = NCalls /\ c.seq.own = 2 /\ c.seq.calls[1] = 2 /\ c.seq.calls[3] = 0)
 Witness_IntFlags     == ~(expect = "frame" /\ c.kind \in {"QUERY", "EXECUTE", "BATCH"} /\ IntFlags(c.pv))
 =============================================================================
